@@ -1,3 +1,4 @@
+import Pearl.Model.CrcForce
 /-
 L5 byte layer, part 1: bincode 1.3 primitives (default config: fixed-width little-endian integers,
 `Vec<u8>` / `String` = u64 length + bytes, `usize` as u64), key expansion and the data generator
@@ -58,9 +59,20 @@ def genLoop : Nat → UInt64 → List UInt8 → List UInt8
     let x' := xorshift x
     genLoop n x' (x'.toUInt8 :: acc)
 
-/-- `gen_data(len, seed)` -/
-def genData (len seed : Nat) : List UInt8 :=
+/-- `gen_data_plain(len, seed)`: byte 0 = `seed mod 256`, then the xorshift64 stream -/
+def genDataPlain (len seed : Nat) : List UInt8 :=
   if len = 0 then [] else genLoop (len - 1) (genSeed0 len seed) [UInt8.ofNat seed]
+
+/-- the seeds whose payloads (of length `≥ 8`) get a chosen checksum -/
+def forcedSeed (len seed : Nat) : Bool := 240 ≤ seed && seed ≤ 249 && 8 ≤ len
+
+/-- `gen_data(len, seed)`: the plain stream, except that for seeds 240..249 and `len ≥ 8` it is the plain stream
+    of length `len - 4` followed by the 4 bytes that make the CRC-32C of the whole payload 0. -/
+def genData (len seed : Nat) : List UInt8 :=
+  if forcedSeed len seed then
+    let p := genDataPlain (len - 4) seed
+    p ++ crcForce p
+  else genDataPlain len seed
 
 def genLoopBA : Nat → UInt64 → ByteArray → ByteArray
   | 0, _, acc => acc
@@ -68,9 +80,16 @@ def genLoopBA : Nat → UInt64 → ByteArray → ByteArray
     let x' := xorshift x
     genLoopBA n x' (acc.push x'.toUInt8)
 
-/-- `ByteArray` version of `genData` (same stream) -/
-def genDataBA (len seed : Nat) : ByteArray :=
+/-- `ByteArray` version of `genDataPlain` (same stream); `cap` = capacity to reserve -/
+def genDataPlainBA (cap len seed : Nat) : ByteArray :=
   if len = 0 then ByteArray.empty
-  else genLoopBA (len - 1) (genSeed0 len seed) ((ByteArray.emptyWithCapacity len).push (UInt8.ofNat seed))
+  else genLoopBA (len - 1) (genSeed0 len seed) ((ByteArray.emptyWithCapacity cap).push (UInt8.ofNat seed))
+
+/-- `ByteArray` version of `genData` (same bytes) -/
+def genDataBA (len seed : Nat) : ByteArray :=
+  if forcedSeed len seed then
+    let p := genDataPlainBA len (len - 4) seed
+    (crcForceBA p).foldl ByteArray.push p
+  else genDataPlainBA len len seed
 
 end Pearl
